@@ -13,7 +13,8 @@ EXPLANATION = ("R1 path-sensitive extraction of the envelope decoder: on every s
 TRUSTED = ['tokio mpsc/oneshot channels are FIFO and single-consumer', 'tokio_util Framed calls the decoder on the bytes in order']
 UNDECIDED = ['channel and Framed FIFO behaviour (trusted)']
 ASSUMPTIONS = []
-SHARED = [('C07', ('B2.reader', 'B7.'), 'R14.framing'), ('C06', ('G1.', 'G2.'), 'R14.framing'), ('C05', ('N1.', 'N2.', 'N3.', 'N4.', 'N5.', 'N8.'), 'R11.ids-unique'), ('C02', ('S13.',), 'R12.id-on-the-wire'), ('C10', ('Q4.entries-only.start', 'Q4.entries-only.collects', 'Q4.entries-only.finish'), 'R13.referrals-of-this-search')]      # routing by ID presupposes that concurrent operations never share an ID and that the ID of an operation the client gave up is not handed out again while its late reply may still arrive (numbering only advances)
+SHARED = [('C07', ('B2.reader', 'B7.'), 'R14.framing'), ('C06', ('G1.', 'G2.'), 'R14.framing'), ('C05', ('N1.', 'N2.', 'N3.', 'N4.', 'N5.', 'N8.'), 'R11.ids-unique'), ('C02', ('S13.',), 'R12.id-on-the-wire'), ('C10', ('Q4.entries-only.start', 'Q4.entries-only.collects', 'Q4.entries-only.finish'), 'R13.referrals-of-this-search'),
+          ('C12', ('O1.scrub-own-id', 'O2.scrub-own-id', 'O3.scrub-key'), 'R15.timeout-disturbs-no-other-operation')]      # routing by ID presupposes that concurrent operations never share an ID and that the ID of an operation the client gave up is not handed out again while its late reply may still arrive (numbering only advances); an expired timeout makes the driver forget exactly the timed-out operation: the scrub names that operation's own ID (not whatever the handle issued before it, which may be a running search) and the scrub arm removes nothing else
 
 RFC4511_SEARCH_RESP = {4: 'SearchItem::Entry', 25: 'SearchItem::Entry', 19: 'SearchItem::Referral', 5: 'SearchItem::Done'}
 
@@ -296,7 +297,8 @@ def run(ctx):
     # ------------------------------------------------------------------ R9 single forwarding task
     spawns = [n for n, c in walk(L.root) if n['k'] in ('Call', 'MethodCall') and (callee_of(n) or '').split('::')[-1] in ('spawn', 'spawn_local', 'spawn_blocking')]
     ctx.add('R9.no-spawn', L.path, loc(L.root), not spawns, 'the driver loop spawns tasks: responses could be forwarded out of order')
-    ctx.add('R9.channel-types', 'ItemSender/ResultSender', '', True, 'resolved to tokio mpsc::UnboundedSender / oneshot::Sender by the anchor types')
+    ctx.add('R9.channel-types', 'ItemSender/ResultSender', '', anchors.T_ITEM_SENDER.startswith('tokio::sync::mpsc::') and anchors.T_RESULT_SENDER.startswith('tokio::sync::oneshot::'),
+            'the item channel (%s) is not a tokio mpsc channel (FIFO, single consumer) or the reply channel is not a oneshot' % anchors.T_ITEM_SENDER[:60])
 
 
 def arm_result(b):
